@@ -1,6 +1,7 @@
 /* decfuzz_h: mutation-bounded exhaustive input enumeration for the SVT-AV1 decoder (C10).
  *
- * usage: decfuzz_h <prefix> <progress-file> <first> <last> [annexb=0|1] [proto=1|2] [count=1] [dump=<id>:<file>]
+ * usage: decfuzz_h <prefix> <progress-file> <first> <last> [annexb=0|1|2] [proto=1|2] [count=1] [dump=<id>:<file>]
+ *   annexb=0/1: the low-overhead seed with the is_annexb flag 0/1; annexb=2: the seed converted to Annex-B units, flag 1
  *   <prefix>.obu/.sz : seed stream (temporal units).  Mutation ids enumerate a fixed, documented space (see gen()).
  * For every id in [first,last]: fresh decoder (init_handle, set_parameter, init), valid TUs before the mutated one, the
  * mutated TU, then (proto 2) the remaining valid TUs, get_picture after each successful TU, deinit, deinit_handle.
@@ -21,14 +22,43 @@ static uint8_t *ob; static uint32_t *sz; static int ntu; static size_t off[4096]
 static volatile long *progress;
 static uint8_t buf[1 << 20]; static size_t blen; static int mut_tu; /* which TU is replaced (or -1: buf is the only input) */
 
-typedef struct { size_t start, hdr, size; int type; } Obu;
+typedef struct { size_t start, hdr, size, szpos; int type; } Obu;
+static int framing; /* 0/1: seed in low-overhead format (annexb flag 0/1); 2: seed converted to Annex-B length-prefixed OBUs, flag 1 */
+static size_t leb_put(uint8_t *o, uint64_t v) { size_t n = 0; do { uint8_t b = v & 0x7f; v >>= 7; if (v) b |= 0x80; o[n++] = b; } while (v); return n; }
+static int split_s5(const uint8_t *d, size_t n, Obu *o, int max);
+/* Annex-B units as svt_av1_dec_frame expects them: [obu_length leb128][obu_header without size field][payload] */
 static int split(const uint8_t *d, size_t n, Obu *o, int max) {
+    if (framing != 2) return split_s5(d, n, o, max);
+    int k = 0; size_t p = 0;
+    while (p < n && k < max) {
+        uint64_t v = 0; int i = 0;
+        for (; i < 8 && p + (size_t)i < n; i++) { v |= (uint64_t)(d[p + (size_t)i] & 0x7f) << (7 * i); if (!(d[p + (size_t)i] & 0x80)) { i++; break; } }
+        if (p + (size_t)i >= n || p + (size_t)i + v > n || v == 0) break;
+        o[k].start = p; o[k].hdr = (size_t)i; o[k].size = (size_t)v; o[k].szpos = p; o[k].type = (d[p + (size_t)i] >> 3) & 15;
+        p += (size_t)i + (size_t)v; k++;
+    }
+    return k;
+}
+static size_t to_annexb(const uint8_t *d, size_t n, uint8_t *out) {
+    Obu o[64]; int k = split_s5(d, n, o, 64); size_t w = 0, end = 0;
+    for (int i = 0; i < k; i++) {
+        size_t ext = (d[o[i].start] >> 2) & 1;
+        w += leb_put(out + w, 1 + ext + o[i].size);
+        out[w++] = (uint8_t)(d[o[i].start] & ~2);
+        if (ext) out[w++] = d[o[i].start + 1];
+        memcpy(out + w, d + o[i].start + o[i].hdr, o[i].size); w += o[i].size;
+        end = o[i].start + o[i].hdr + o[i].size;
+    }
+    memcpy(out + w, d + end, n - end); w += n - end;   /* anything that does not parse is kept as it is */
+    return w;
+}
+static int split_s5(const uint8_t *d, size_t n, Obu *o, int max) {
     int k = 0; size_t p = 0;
     while (p < n && k < max) {
         int ext = (d[p] >> 2) & 1, has = (d[p] >> 1) & 1; size_t h = 1 + (size_t)ext; uint64_t v = 0; int i = 0;
         if (!has) break;
         for (; i < 8 && p + h + (size_t)i < n; i++) { v |= (uint64_t)(d[p + h + (size_t)i] & 0x7f) << (7 * i); if (!(d[p + h + (size_t)i] & 0x80)) { i++; break; } }
-        o[k].start = p; o[k].hdr = h + (size_t)i; o[k].size = (size_t)v; o[k].type = (d[p] >> 3) & 15;
+        o[k].start = p; o[k].hdr = h + (size_t)i; o[k].size = (size_t)v; o[k].szpos = p + h; o[k].type = (d[p] >> 3) & 15;
         if (p + o[k].hdr + o[k].size > n) break;
         p += o[k].hdr + o[k].size; k++;
     }
@@ -76,7 +106,7 @@ static int gen(long id, char *desc, size_t dn) {
         }
         id -= parts[3];
         if (id < parts[4]) {
-            int k = (int)(id / 4), what = (int)(id % 4); size_t p = o[k].start + 1 + (size_t)((src[o[k].start] >> 2) & 1);
+            int k = (int)(id / 4), what = (int)(id % 4); size_t p = o[k].szpos;
             /* single-byte leb128 only (sizes < 128) are rewritten in place; longer ones: first byte */
             uint8_t v = buf[p];
             if (what == 0) buf[p] = (uint8_t)((v & 0x80) | ((v + 1) & 0x7f)); else if (what == 1) buf[p] = (uint8_t)((v & 0x80) | ((v - 1) & 0x7f));
@@ -144,14 +174,20 @@ int main(int argc, char **argv) {
     snprintf(fn, sizeof fn, "%s.sz", argv[1]); sz = (uint32_t *)readfile(fn, &sn); ntu = (int)(sn / 4);
     for (int t = 0, o = 0; t < ntu && t < 4096; t++) { off[t] = (size_t)o; o += (int)sz[t]; }
     long first = atol(argv[3]), last = atol(argv[4]);
+    for (int i = 5; i < argc; i++) if (!strncmp(argv[i], "annexb=", 7)) framing = atoi(argv[i] + 7);
+    if (framing == 2) { /* the seed itself becomes an Annex-B stream */
+        uint8_t *nb = malloc(2 * on + 4096 * 16 + 64); size_t w = 0;
+        for (int t = 0; t < ntu && t < 4096; t++) { size_t l = to_annexb(ob + off[t], sz[t], nb + w); off[t] = w; sz[t] = (uint32_t)l; w += l; }
+        ob = nb;
+    }
     for (int i = 5; i < argc; i++) {
         if (!strncmp(argv[i], "annexb=", 7)) annexb = atoi(argv[i] + 7); else if (!strncmp(argv[i], "proto=", 6)) proto = atoi(argv[i] + 6);
         else if (!strncmp(argv[i], "count=", 6)) count = atoi(argv[i] + 6); else if (!strncmp(argv[i], "full=", 5)) short_full = atoi(argv[i] + 5);
         else if (!strncmp(argv[i], "dump=", 5)) { dump_id = atol(argv[i] + 5); dump_file = strchr(argv[i] + 5, ':') + 1; }
     }
     char desc[256];
-    if (count) { long parts[6], tot = 0; for (int t = 0; t < (ntu > 1 ? 2 : 1); t++) tot += space_tu(t, parts); printf("%ld\n", tot + space_short()); return 0; }
-    if (dump_file) { if (!gen(dump_id, desc, sizeof desc)) return 3; FILE *f = fopen(dump_file, "wb"); fwrite(buf, 1, blen, f); fclose(f); printf("%s mut_tu=%d len=%zu\n", desc, mut_tu, blen); return 0; }
+    if (count) { long parts[6], tot = 0; for (int t = 0; t < (ntu > 1 ? 2 : 1); t++) tot += space_tu(t, parts); printf("%ld\n", tot + space_short()); fflush(stdout); return 0; }
+    if (dump_file) { if (!gen(dump_id, desc, sizeof desc)) return 3; FILE *f = fopen(dump_file, "wb"); fwrite(buf, 1, blen, f); fclose(f); printf("%s mut_tu=%d len=%zu\n", desc, mut_tu, blen); fflush(stdout); return 0; }
     int fd = open(argv[2], O_RDWR | O_CREAT, 0644);
     if (fd < 0 || ftruncate(fd, 16) != 0) return 4;
     progress = mmap(NULL, 16, PROT_READ | PROT_WRITE, MAP_SHARED, fd, 0);
@@ -180,8 +216,12 @@ int main(int argc, char **argv) {
         int lastt = (mut_tu < 0) ? 0 : (proto == 2 ? ntu - 1 : mut_tu);
         for (int t = 0; t <= lastt; t++) {
             const uint8_t *d = (t == mut_tu || mut_tu < 0) ? buf : ob + off[t]; size_t n = (t == mut_tu || mut_tu < 0) ? blen : sz[t];
-            if (n == 0) { static const uint8_t z = 0; d = &z; }
-            EbErrorType e = svt_av1_dec_frame(h, d, n, (uint32_t)annexb);
+            /* the decoder gets an allocation of exactly n bytes: a read past the caller's data is an ASan report, not a read of a neighbour */
+            uint8_t *exact = malloc(n ? n : 1);
+            if (!exact) continue;
+            memcpy(exact, d, n);
+            EbErrorType e = svt_av1_dec_frame(h, exact, n, (uint32_t)(annexb ? 1 : 0));
+            free(exact);
             if (e != EB_ErrorNone) nerr++;
             else if (svt_av1_dec_get_picture(h, &rb, &si, &fi) != EB_DecNoOutputPicture) npic++;
         }
